@@ -33,6 +33,10 @@ func allEntryRoutes() []entryRoute {
 		{"mkdir", wproto.Req{Op: "mkdir", Exts: []string{"a"}}},
 		{"mkdir-dryrun", wproto.Req{Op: "mkdir", DryRun: true}},
 		{"verify", wproto.Req{Op: "verify", Strict: true}},
+		// branch strings of any shape: the two connectors and the two fillers of unequal byte lengths, and all empty
+		{"output-text-branches-long-last", wproto.Req{Op: "output", Branches: []string{"`------", "  ", "+", "|"}}},
+		{"walk-branches-long-mid", wproto.Req{Op: "walk", Branches: []string{"`", "", "+------", "|     "}}},
+		{"output-dryrun-branches-empty", wproto.Req{Op: "output", DryRun: true, Branches: []string{"", "", "", ""}}},
 	}
 	out := []entryRoute{{"output-text/slice", wproto.Req{Op: "output", NoIter: true}}}
 	for _, b := range base {
